@@ -18,7 +18,8 @@ for sid in sorted(os.listdir('/verif/seeded'), key=lambda s: (s[3:], s[:3])):
 with open('/verif/seeded/INDEX.md', 'w') as f:
     f.write("# Seeded violations (written by independent sub-agents, confirmed in scratch worktrees)\n\n"
             "Rounds: a plain bugs, b/c hidden in refactoring, d consistent in all copies, e library / language semantics, f-i off the "
-            "beaten path (four successive sets of sites), j off the beaten path inside a clean-up.  `target` = reported by the check "
+            "beaten path (four successive sets of sites), j off the beaten path inside a clean-up, k two-site interactions, l library / language traps, "
+            "m non-default options, n optimisations gone wrong, o well-meant fixes gone wrong, p side effects of a small feature.  `target` = reported by the check "
             "of the property the change was written against.  Regenerate with tools/refresh_seed_meta.py + tools/seed_index.py.\n\n"
             "| id | property | files | what | target | reported by (check:rules) |\n|---|---|---|---|---|---|\n")
     f.write('\n'.join(rows) + '\n')
